@@ -1106,6 +1106,8 @@ fn faults() -> Vec<Fault> {
   }
   // a body over the JSON limit of 4 MiB
   v.push(Fault { name: "body-over-the-limit", req: post_json("/definitions/add", format!("{{\"content\":\"{}\"}}", "A".repeat(5 * 1024 * 1024))) });
+  // an input context over the payload limit of the evaluate endpoint (256 KiB by default)
+  v.push(Fault { name: "evaluate-body-over-the-limit", req: Req { method: "POST", path: "/evaluate/model1/D".into(), content_type: Some("text/plain"), body: format!("{{x: \"{}\"}}", "a".repeat(300 * 1024)).into_bytes() } });
   // a model that parses but does not build, and generated models whose mutants used to crash the evaluator (C12)
   v.push(Fault { name: "add-and-deploy-of-a-model-with-cyclic-requirements", req: add(b64(CYCLIC_XML.as_bytes())) });
   v.push(Fault { name: "add-of-a-table-with-a-short-rule", req: add(b64(SHORT_RULE_XML.as_bytes())) });
